@@ -6,6 +6,7 @@ import (
 	"github.com/hashicorp/hcl/v2/hcldec"
 	"github.com/hashicorp/hcl/v2/hclsyntax"
 	"github.com/zclconf/go-cty/cty"
+	"github.com/zclconf/go-cty/cty/function"
 	"github.com/zclconf/go-cty/cty/function/stdlib"
 
 	"verif/engine/vf"
@@ -26,6 +27,14 @@ var kindSel int
 var symbolicLabels bool
 
 var kindNames = []string{"attr", "block", "blocklist", "blocktuple", "blockset", "blockmap", "blockobject", "blockattrs", "default", "transform", "validate", "refine", "object", "tuple"}
+
+var wrapInList = function.New(&function.Spec{
+	Params: []function.Parameter{{Name: "s", Type: cty.String, AllowNull: true, AllowUnknown: true}},
+	Type:   function.StaticReturnType(cty.List(cty.String)),
+	Impl: func(args []cty.Value, retType cty.Type) (cty.Value, error) {
+		return cty.ListVal([]cty.Value{args[0]}), nil
+	},
+})
 
 var attrTypes = []cty.Type{cty.String, cty.Number, cty.Bool, cty.List(cty.String), cty.DynamicPseudoType}
 
@@ -95,7 +104,11 @@ func topSpec() (s hcldec.Spec, needLabels int) {
 	case 8:
 		return &hcldec.DefaultSpec{Primary: &hcldec.AttrSpec{Name: "a", Type: cty.String}, Default: &hcldec.LiteralSpec{Value: cty.StringVal("dflt")}}, 0
 	case 9:
-		return &hcldec.TransformFuncSpec{Wrapped: &hcldec.AttrSpec{Name: "a", Type: cty.String}, Func: stdlib.UpperFunc}, 0
+		if pick(2) == 0 {
+			return &hcldec.TransformFuncSpec{Wrapped: &hcldec.AttrSpec{Name: "a", Type: cty.String}, Func: stdlib.UpperFunc}, 0
+		}
+		// a transformation that changes the type (string -> list of string)
+		return &hcldec.TransformFuncSpec{Wrapped: &hcldec.AttrSpec{Name: "a", Type: cty.String}, Func: wrapInList}, 0
 	case 10:
 		return &hcldec.ValidateSpec{Wrapped: attrSpec("a"), Func: func(v cty.Value) hcl.Diagnostics {
 			if v.IsNull() {
